@@ -113,7 +113,16 @@ class ThreadWorker(base.Worker):
         fs.add_done_callback(self.finish_request)
 
     def enqueue_req(self, conn):
-        conn.init()
+        try:
+            conn.init()
+        except OSError as e:
+            # wrapping the socket (TLS) talks to the peer: it fails when the
+            # client has already reset the connection or does not speak TLS.
+            # That only concerns this connection, not the worker.
+            self.log.debug("Error preparing the connection: %s", e)
+            self.nr_conns -= 1
+            conn.close()
+            return
         # submit the connection to a worker
         fs = self.tpool.submit(self.handle, conn)
         self._wrap_future(fs, conn)
